@@ -16,7 +16,7 @@ Model (as written, bugs included): a scope is a tree `Node id inputs subs` (inpu
   pop_max = the heapq contract only ("pop returns the smallest key" = largest original index);
   the cycle test `len(out) != total` precedes every relinking; relink = Graph.extend on present nodes
   (move-to-end, one by one).  sort_pass = graph then each function, stop at the first ValueError,
-  `modified` by the zip comparison.
+  `modified` by the zip comparison of the recursive node sequences (since 733a9c1; flat_new/zip_differs).
 Theorems (all closed under the global context, no axioms):
   C12_outcome        wf -> result is Ok or Raise ValueError (fuel suffices: kahn_inv/kahn_total)
   C12_perm           wf -> same graphs, every new sequence a Permutation of the old one
@@ -69,6 +69,7 @@ Mutants of /repo tried in a scratch worktree (VERIF_REPO), quick tier, seed 0 â€
   M6b pushed heap key taken from the popped node       -> stability violated; TypeError (node comparison)
   M7 iterator visits only the first graph of GRAPHS    -> nested graph left unsorted
   M8 the committed fix 86f4e6a reverted (ref attrs of graph type)  -> TypeError reported by the oracle on corpus 10/11 and generated cases
+  M9 733a9c1 reverted (modified from top-level lists only)   -> oracle: "pass reported modified=False but node order changed=True"
 Harness note: failing indices of the two case lists are printed by two separate Evals (adding 100000 in
   unary nat overflowed the stack once a pass case failed).
 """
@@ -448,6 +449,10 @@ def oracle(case: dict, obs: dict) -> list[str]:
                 if before[str(g["gid"])] != after[str(g["gid"])]:
                     bad.append(f"graph {g['gid']}: already ordered but changed "
                                f"{before[str(g['gid'])]} -> {after[str(g['gid'])]}")
+    if case["kind"] == "pass" and obs["outcome"] == "ok":
+        moved = any(before[k] != after[k] for k in before)
+        if bool(obs["modified"]) != moved:
+            bad.append(f"pass reported modified={obs['modified']} but node order changed={moved}")
     for gid in before:
         if int(gid) not in in_scope and before[gid] != after[gid]:
             bad.append(f"graph {gid} is outside the sorted scope but changed")
